@@ -452,7 +452,7 @@ func TestC13Memfd(t *testing.T) {
 				cf()
 			}
 			cleanup = nil
-			{ // the failing reader never reports EOF: it errors after FailAt bytes even when that is the whole content
+			if c.FailAt <= len(want) { // it errors after FailAt bytes, even when that is exactly the whole content (never EOF)
 				if err == nil {
 					f.Close()
 					return vh.Violf("C13:memfd-error-swallowed", "reader failed after %d of %d bytes but DupToMemfd returned a file", c.FailAt, len(want))
